@@ -18,7 +18,7 @@ import cxx2c  # noqa
 STUBS = os.path.join(ROOT, 'stubs')
 GROUPS = os.path.join(ROOT, 'groups')
 CBMC_BASE = ['--no-standard-checks', '--bounds-check', '--pointer-check', '--div-by-zero-check', '--undefined-shift-check',
-             '--object-bits', '8', '--json-ui', '--trace', '--no-malloc-may-fail']
+             '--json-ui', '--trace', '--no-malloc-may-fail']
 
 
 class Undecided(Exception):
@@ -97,10 +97,12 @@ def build_group(G, bdir, log):
     cfg.opaque_records = set(G.get('opaque_records', ()))
     cfg.scalar_records = dict(G.get('scalar_records', {}))
     cfg.outside_funcs = dict(G.get('outside_funcs', {}))
+    cfg.type_aliases = {cxx2c.norm_name(a): b for a, b in G.get('type_aliases', {}).items()}
     cfg.aliases = [(cxx2c.norm_name(a), b) for a, b in G.get('aliases', ())]
     for hook in ('std_call_hook', 'member_call_hook', 'operator_call_hook'):
         if hook in G:
             setattr(cfg, hook, G[hook])
+    cfg.opaque_sizes = opaque_sizes(G, bdir, driver)
     spec = os.path.join(G['dir'], G.get('spec', 'spec.h'))
     cfg.loop_contracts = parse_loop_contracts(spec, None)
     u = cxx2c.Unit(ix, cfg)
@@ -127,6 +129,42 @@ def build_group(G, bdir, log):
                                 'records': u.report['records'], 'atomic_sites': len(u.report['atomic_sites']),
                                 'lower_s': round(time.time() - t0, 2)}
     return u, gen
+
+
+def opaque_sizes(G, bdir, driver):
+    """records a group treats as opaque blobs when they are held by value: size and alignment come from clang"""
+    names = list(G.get('opaque_by_value', ()))
+    if not names:
+        return {}
+    src = os.path.join(bdir, 'opaque.cpp')
+    lines = ['#include "%s"' % driver, 'extern "C" { extern const unsigned long vf_sizes[]; const unsigned long vf_sizes[] = {']
+    for i, n in enumerate(names):
+        lines.append('  sizeof(%s), alignof(%s),' % (n, n))
+    lines.append('  0xABCDEF }; }')
+    open(src, 'w').write('\n'.join(lines) + '\n')
+    rc, out, err, _ = sh(['clang++', '-std=gnu++20', '-DNDEBUG', '-fno-access-control', '-I' + cxx2c.REPO + '/src', '-isystem', '/root/miniconda/include',
+                          '-Wno-everything', '-S', '-O0', src, '-o', '-'], timeout=300)
+    if rc != 0:
+        raise cxx2c.Abort('opaque size probe does not compile:\n' + err[-2000:])
+    vals = []
+    on = False
+    for line in out.split('\n'):
+        t = line.strip()
+        if t.startswith('vf_sizes:'):
+            on = True
+            continue
+        if on:
+            m = re.match(r'\.quad\s+(\d+)', t)
+            if m:
+                vals.append(int(m.group(1)))
+            elif t and not t.startswith('.'):
+                break
+            elif t.startswith('.size'):
+                break
+    if len(vals) != 2 * len(names) + 1 or vals[-1] != 0xABCDEF:
+        raise cxx2c.Abort('opaque size probe: could not read the constants back (%d values)' % len(vals))
+    os.remove(src)
+    return {cxx2c.norm_name(n): (vals[2 * i], vals[2 * i + 1]) for i, n in enumerate(names)}
 
 
 def layout_check(G, u, bdir, driver):
@@ -285,7 +323,7 @@ def run_job(G, u, gen, bdir, job, tier):
             return res
     else:
         gb2 = gb
-    cmd = ['cbmc', gb2] + CBMC_BASE + list(job.get('flags', ()))
+    cmd = ['cbmc', gb2] + CBMC_BASE + ['--object-bits', str(job.get('object_bits', 8))] + list(job.get('flags', ()))
     if job.get('unwind'):
         cmd += ['--unwind', str(job['unwind']), '--unwinding-assertions']
     be = job.get('backend', 'sat')
@@ -615,6 +653,8 @@ def finish(prop, tier, seed, t0, log, results, undecided, bdir, keep):
 
 def match_finding(findings, r, p):
     for kf in findings:
+        if kf.get('status') != 'finding':
+            continue        # a 'fixed' entry suppresses nothing: if the failure returns it is a violation
         if kf.get('job') and kf['job'] != r['id']:
             continue
         pat = kf.get('obligation_re')
@@ -630,7 +670,7 @@ def native_replay(prop, r, lst, rep, bdir):
     if not os.path.exists(path):
         rep['native_replay'] = 'none available for this group'
         return False
-    g = {}
+    g = {'__file__': path}
     try:
         exec(compile(open(path).read(), path, 'exec'), g)
         return bool(g['replay'](r, [p for (_, p, _) in lst], rep, bdir))
